@@ -384,6 +384,19 @@ def decl_route(ctx, bad_rate):
             d["splicer"] = sp
         decls.append(d)
     y = {"library": "decsp", "cxx_header": "decsp.hpp", "options": {"wrap_python": True, "wrap_lua": False}, "declarations": decls}
+    # a COMPETING user definition of the same blocks through splicer_code (functions 0-2) and of other blocks (3-5): code written
+    # on the declaration has the highest priority, a user block wins only where the declaration says nothing
+    comp = {}
+    for i in range(6):
+        for g in ("c", "f", "py"):
+            if ctx.rng.random() < 0.6:
+                body, kinds = make_body(ctx.rng, 900 + 10 * i + len(comp), 0.0)
+                comp.setdefault(g, {}).setdefault("function", {})["fun%d" % i] = body
+                if (g, "function.fun%d" % i) not in exp and g != "f":
+                    # (an int(int) function needs no Fortran wrapper of its own: no f block is emitted unless the declaration forces one)
+                    exp[(g, "function.fun%d" % i)] = (body, kinds)
+    if comp:
+        y["splicer_code"] = comp
     yp = os.path.join(base, "decsp.yaml")
     yaml.safe_dump(y, open(yp, "w", encoding="utf-8"), allow_unicode=True)
     od = os.path.join(base, "out")
